@@ -177,6 +177,29 @@ pub fn run(tier: &str, seed: u64, out: &Path) -> i32 {
         }
         push(&mut jobs, &mut names, "literal", &format!("lit{}", k), src, cfg);
     }
+    // H. boundary widths (boundary.rs): the items of the fixtures at the widths where one of their lines is exactly as
+    //    wide as the page (thorough: at every width 20..200), half of them under one more option
+    {
+        let mut its = crate::boundary::items(&progs);
+        its.retain(|it| !it.id.contains("issue-3465.rs#0")); // minutes per run at narrow widths
+        let plan = crate::boundary::plan(&its, Duration::from_secs(10));
+        for (it, ws) in its.iter().zip(plan.iter()) {
+            if ws.is_empty() {
+                continue;
+            }
+            let all: Vec<usize> = (20..=200).collect();
+            for w in if thorough { &all } else { ws } {
+                let mut cfg = merge_cfg(&it.cfg, &[("max_width".into(), w.to_string())]);
+                if rng.chance(1, 2) {
+                    let (k, v) = rng.pick(&singles).clone();
+                    if k != "max_width" {
+                        cfg = merge_cfg(&cfg, &[(k, v)]);
+                    }
+                }
+                push(&mut jobs, &mut names, "boundary", &it.id, it.src.clone(), cfg);
+            }
+        }
+    }
     let timeout = Duration::from_secs(if thorough { 20 } else { 8 });
     let res = pool::run_jobs(&jobs, jobs_n(), timeout);
     let mut distinct = std::collections::HashSet::new();
